@@ -470,6 +470,7 @@ pub fn run(tier: &str, known: &mc::Known, lim: impl Fn(usize, usize, bool, u64) 
     }
     ev.add("evaluations", pairs);
     ev.set("distinct_nontrivial", json!(classes.len()));
+    ev.set("exhaustive", json!(true));
     ev.set("rule", json!("part 1: every (grant, requested pattern) pair over {a,b,?,#} up to depth 4 (quick) / 5 (thorough); where pattern_matches claims containment, every key the real server returns for the request (measured on a store holding every key over {a,b} one level deeper) must be covered by the grant under the documented relation. part 2: for each of 10 tokens (no token, 5 grant sets, expired, forged, unsupported algorithm, garbage) every sequence of requests (all request kinds over keys/patterns a, a/b, a/b/c, b, a/?, a/#, ?/b, #, ?) up to the completed depth on a server that requires authorization; distinct_nontrivial counts distinct (token, request kind, served/refused/closed) classes"));
     ev.assume("only soundness is asserted: served => every key returned, changed or removed (answer, store difference, unrestricted observer) is covered by a grant of the right privilege; not that every containable request is accepted");
     ev.assume("token expiry uses the wall clock: expiry times far in the past (2001) and far in the future (2100)");
